@@ -46,8 +46,10 @@ def build(case):
     if case.get("array_scale"):
         # scale() documents "int, float, or ndarray": per-magnitude-bin or per-cell factors
         nc_, nm_ = rates.shape
-        arr = numpy.array([[1.0 + 0.5 * (j % 3) for j in range(nm_)]]) if case["array_scale"] == "row" else numpy.array([[0.5 + 0.25 * (i % 5)] for i in range(nc_)])
-        fore.scale(arr)
+        arr = numpy.array([[1.0 + 0.5 * (j % 3) for j in range(nm_)]]) if case["array_scale"] in ("row", "vec") else numpy.array([[0.5 + 0.25 * (i % 5)] for i in range(nc_)])
+        # "vec": the per-magnitude factors as a plain 1-D vector (numpy broadcasting applies it along the magnitude axis, also when
+        # the forecast happens to have as many cells as magnitude bins)
+        fore.scale(arr[0] if case["array_scale"] == "vec" else arr)
     obs = [(0, 0)] * case["n"]
     cat = S.catalog(region, obs=obs)
     if case.get("below_min") and case["n"] <= 3000:
@@ -73,7 +75,7 @@ def check_case(ctx, case):
     if case.get("array_scale"):
         base = S.rates / S.rates.sum() * case["mu"]
         nc_, nm_ = base.shape
-        arr = numpy.array([[1.0 + 0.5 * (j % 3) for j in range(nm_)]]) if case["array_scale"] == "row" else numpy.array([[0.5 + 0.25 * (i % 5)] for i in range(nc_)])
+        arr = numpy.array([[1.0 + 0.5 * (j % 3) for j in range(nm_)]]) if case["array_scale"] in ("row", "vec") else numpy.array([[0.5 + 0.25 * (i % 5)] for i in range(nc_)])
         mu = math.fsum((base * arr).ravel().tolist())
         if numpy.ndim(fore.event_count) != 0:
             ctx.violation("forecast_total_not_a_scalar_after_array_scaling", {"shape": list(numpy.shape(fore.event_count))})
@@ -245,7 +247,7 @@ def cases(draw):
     n = draw(st.one_of(st.sampled_from([0, 1, 2]), st.integers(-4, 4).map(lambda z: max(0, int(round(eff + z * sd)))),
                        st.integers(0, 200), st.just(max(0, int(eff)))))
     n = min(n, 100000)
-    arr_scale = draw(st.sampled_from([None, None, None, "row", "col"]))
+    arr_scale = draw(st.sampled_from([None, None, None, "row", "col", "vec", "vec"]))
     if arr_scale:
         eff = mu   # the array factors are O(1); n is drawn around the unscaled mean, which is fine for the tails
     c = {"k": kind, "setup": setup, "mu": mu, "scale_history": hist, "n": n, "array_scale": arr_scale,
